@@ -133,6 +133,7 @@ func VerifH_grpc_recv() {
 		vfCover("over-limit-after-decompression")
 	}
 	if uint64(size) > uint64(avail) && uint64(size) <= uint64(limit) {
+		vfCheck(err != io.EOF, "a frame cut inside its payload reported as a clean end of stream")
 		vfCover("truncated")
 	}
 }
